@@ -12,7 +12,7 @@ from vf.props import c01
 ID = "C03"
 TITLE = "Recovery factor conserves mass and respects its physical ceiling"
 LEVEL = "exploration"
-BUDGET = {"quick": 2400, "thorough": 40000}
+BUDGET = {"quick": 2400, "thorough": 160000}
 SHRINK = {"quick": False, "thorough": True}
 TIME_LIMIT = {"quick": 150, "thorough": 3300}
 RULE = (
